@@ -81,7 +81,7 @@ func replayIn(rep *vh.Report, worlds []*world, names []string, c *Case, i int) {
 		rep.Case("in|"+names[wi]+"|"+o.Request+"|"+vh.JS(c.Given)+fmt.Sprint(c.Rx), nontrivial)
 		rep.Class(c.Fam)
 		rep.Class("outcome:" + c.Exp.Out)
-		if i%487 == 0 && wi == 0 {
+		if i%211 == 7 && wi == 0 && nontrivial {
 			rep.Sample(map[string]interface{}{"request": o.Request, "variables": c.Given, "prescribed": c.Exp, "observed": o.Out,
 				"resolver_received": describe(o.Got)})
 		}
@@ -111,7 +111,7 @@ func replayOut(rep *vh.Report, worlds []*world, names []string, c *Case, i int) 
 		o := w.runOut(c)
 		rep.Case("out|"+names[wi]+"|"+c.T.String()+"|"+c.Gv.String(), c.Gv.K != "null")
 		rep.Class(c.Fam)
-		if i%487 == 0 && wi == 0 {
+		if i%211 == 7 && wi == 0 && c.Gv.K != "null" {
 			rep.Sample(map[string]interface{}{"request": o.Request, "declared": c.T.String(), "resolver_returns": describe(buildOut(*c.Gv)),
 				"prescribed": c.Exp, "response": o.Text})
 		}
@@ -331,8 +331,6 @@ func (g *gen) inCase(t *TRef) *Case {
 	return c
 }
 
-var homPools = map[string][]Val{}
-
 func (g *gen) outLeaf(base string) Val {
 	if g.r.Intn(5) == 0 {
 		switch g.r.Intn(6) {
@@ -538,8 +536,8 @@ func cmdRecord(args []string) {
 			}
 		}
 		act := absOutRaw(o.Mem)
-		if falsify {
-			act = Val{K: "str", S: "falsified"}
+		if falsify { // negative control: no expectation is met by this
+			act = Val{K: "unk", S: "falsified"}
 		}
 		if o.BadErr != "" {
 			act = Val{K: "unk", S: o.BadErr}
